@@ -20,6 +20,7 @@ type pipe struct {
 	onCut    func()
 	Log      []byte // everything written (for session recording)
 	record   bool
+	cap      int // bounded socket buffer: a Write blocks while this many bytes are undelivered (0: unbounded)
 }
 
 // Conn is one end of a fake connection.
@@ -30,6 +31,11 @@ type Conn struct {
 	MaxRead   int  // deliver at most this many bytes per Read (0: unlimited)
 	Decisions bool // Read/Write/Close are decision points (else quiet)
 	closedLoc bool
+	// peer-stops-reading fault: after stallAfter bytes have been read by this end, its reads block forever
+	stalled    bool
+	stallAfter int64
+	readTotal  int64
+	onStall    func()
 }
 
 var ErrReset = errors.New("vnet: connection reset by peer")
@@ -37,8 +43,8 @@ var ErrReset = errors.New("vnet: connection reset by peer")
 // Pair returns the two ends of a fake connection.
 func Pair(aName, bName string) (*Conn, *Conn) {
 	p1, p2 := &pipe{cutAfter: -1}, &pipe{cutAfter: -1}
-	a := &Conn{Name: aName, in: p1, out: p2, Decisions: true}
-	b := &Conn{Name: bName, in: p2, out: p1, Decisions: true}
+	a := &Conn{Name: aName, in: p1, out: p2, Decisions: true, stallAfter: -1}
+	b := &Conn{Name: bName, in: p2, out: p1, Decisions: true, stallAfter: -1}
 	a.peer, b.peer = b, a
 	return a, b
 }
@@ -59,6 +65,32 @@ func (c *Conn) HalfCloseAfterWritten(k int64) {
 	c.out.onCut = func() { c.out.closed = true }
 }
 
+// SetWriteCapacity bounds the socket buffer of this end's outgoing direction: Write blocks (like a real socket
+// whose peer does not read) while n bytes are undelivered.
+func (c *Conn) SetWriteCapacity(n int) { c.out.cap = n }
+
+// StallAfterRead: once this end has read k bytes in total it stops reading for good (a hung peer process); then
+// (optional) runs at that moment.
+func (c *Conn) StallAfterRead(k int64, then func()) {
+	c.stallAfter, c.onStall = k, then
+	if k == 0 {
+		c.stall()
+	}
+}
+
+func (c *Conn) stall() {
+	c.stalled, c.stallAfter = true, -1
+	if c.onStall != nil {
+		c.onStall()
+	}
+}
+
+// Unstall lets reads proceed again (teardown).
+func (c *Conn) Unstall() { c.stalled = false }
+
+// CloseWrite half-closes now: the peer reads EOF after draining, the other direction stays open.
+func (c *Conn) CloseWrite() { c.out.closed = true }
+
 // Break cuts the connection now: pending data is lost, both ends fail.
 func (c *Conn) Break() {
 	c.in.broken, c.out.broken = true, true
@@ -66,7 +98,9 @@ func (c *Conn) Break() {
 }
 
 func (c *Conn) Read(p []byte) (int, error) {
-	vsched.Wait(c.Decisions, c.Name+".read", func() bool { return len(c.in.buf) > 0 || c.in.closed || c.in.broken || c.closedLoc })
+	vsched.Wait(c.Decisions, c.Name+".read", func() bool {
+		return c.closedLoc || c.in.broken || (!c.stalled && (len(c.in.buf) > 0 || c.in.closed))
+	})
 	switch {
 	case c.closedLoc:
 		return 0, net.ErrClosed
@@ -80,8 +114,15 @@ func (c *Conn) Read(p []byte) (int, error) {
 		if c.MaxRead > 0 && n > c.MaxRead {
 			n = c.MaxRead
 		}
+		if c.stallAfter >= 0 && int64(n) > c.stallAfter-c.readTotal {
+			n = int(c.stallAfter - c.readTotal)
+		}
 		copy(p, c.in.buf[:n])
 		c.in.buf = c.in.buf[n:]
+		c.readTotal += int64(n)
+		if c.stallAfter >= 0 && c.readTotal >= c.stallAfter {
+			c.stall()
+		}
 		return n, nil
 	}
 	return 0, io.EOF
@@ -89,6 +130,28 @@ func (c *Conn) Read(p []byte) (int, error) {
 
 func (c *Conn) Write(p []byte) (int, error) {
 	vsched.Wait(c.Decisions, c.Name+".write", nil)
+	if c.out.cap <= 0 {
+		return c.write(p)
+	}
+	// bounded socket buffer: block until there is space, the connection fails or this end is closed
+	done := 0
+	for done < len(p) {
+		o := c.out
+		vsched.Wait(false, c.Name+".write-space", func() bool { return c.closedLoc || o.broken || o.closed || len(o.buf) < o.cap })
+		n := len(p) - done
+		if free := o.cap - len(o.buf); free > 0 && n > free {
+			n = free
+		}
+		m, err := c.write(p[done : done+n])
+		done += m
+		if err != nil {
+			return done, err
+		}
+	}
+	return done, nil
+}
+
+func (c *Conn) write(p []byte) (int, error) {
 	if c.closedLoc {
 		return 0, net.ErrClosed
 	}
